@@ -1257,6 +1257,118 @@ impl Scenario for Ics20Scen {
         }
     }
 
+    /// Small scope: p0 sends, p1 governs, p2 receives / is the stranger; token0 is on the allow list, token1 (the faulty
+    /// one) is not; two connected channels (ours `channel-0` = their `channel-1`, ours `channel-1` = their `channel-2`),
+    /// amounts 1/2.  An `ibc recv` never fails as an op (bad packets are answered with an error acknowledgement), so
+    /// the enumeration is not pruned behind it: to stay near 80k sequences at depth 4 every variant has its own
+    /// alphabet (a story) instead of one alphabet of all lines.
+    /// * variant 0 — default gas limit, token0 with its own (lower) limit: escrow and redemption of a native coin on
+    ///   two channels and of token0 (send, vouchers coming home, wrong channel, more than outstanding, invalid
+    ///   receiver, ack / timeout refunds, next block);
+    /// * variant 1 — no default gas limit, token0 listed without limit: the allow list and its gate (new token, raise,
+    ///   lower, stranger, hand-over of governance, default gas limit by migrate), cw20 sends / payouts / refunds of
+    ///   both tokens (token1 refuses the payout), undecodable packet, wrong port;
+    /// * variant 2 — a pre-0.12 (v1) storage layout with one channel and one native coin in flight under the old
+    ///   rules, to be migrated (a second channel makes the migration impossible).
+    fn small_scope(&mut self, variant: u64) -> Option<SmallScope> {
+        if self.wide || variant > 2 {
+            return None;
+        }
+        let (p0, p1, p2) = (self.pool[0].clone(), self.pool[1].clone(), self.pool[2].clone());
+        let (t0, t1) = (self.tokens[0].clone(), self.tokens[1].clone());
+        let (c0, c1) = (format!("cw20:{t0}"), format!("cw20:{t1}"));
+        let b = self.app.block_info();
+        let tm = "to=remote0 timeout=- memo=-";
+        let connect = |c: &str| format!("ibc connect chan={c} ver=ics20-1 cver=ics20-1 order=unordered");
+        let transfer = |amt: u128, chan: &str| format!("exec {p0} transfer funds={amt}|uatom chan={chan} {tm}");
+        let send = |t: &Addr| format!("exec {p0} send token={t} amt=1 chan=channel-0 {tm}");
+        // a voucher coming home over our channel-0 (their channel-1)
+        let recv0 = |denom: &str, amt: u128, rcv: &str, fail: u8| {
+            format!("ibc recv chan=channel-0 sport={REMOTE_PORT} schan=channel-1 denom={REMOTE_PORT}/channel-1/{denom} amt={amt} rcv={rcv} snd=remote0 tv=1 fail={fail}")
+        };
+        // the packet of `exec p0 transfer|send …` (receiver remote0, no memo)
+        let flight = |chan: &str, denom: &str, amt: u128| format!("chan={chan} denom={denom} amt={amt} snd=+{p0} rcv=remote0 memo=- tv=1");
+        let allow = |by: &Addr, t: &Addr, gas: &str| format!("exec {by} allow contract=+{t} gas={gas}");
+        let env = format!("env height={} time={}", b.height + 1, b.time.nanos() + 5_000_000_000);
+        let rcv = format!("+{p2}");
+        match variant {
+            0 => Some(SmallScope {
+                prefix: vec![format!("inst gov=+{p1} timeout=100 gas=500000 allow=+{t0}|300000"), connect("channel-0"), connect("channel-1")],
+                alphabet: vec![
+                    transfer(1, "channel-0"),
+                    transfer(2, "channel-0"),
+                    transfer(1, "channel-1"),
+                    send(&t0),
+                    recv0("uatom", 1, &rcv, 0),
+                    // more than outstanding unless 2 or more were sent
+                    recv0("uatom", 2, &rcv, 0),
+                    // arrives on channel-1 but names the voucher of channel-0 (their channel-1 is also OUR id of the other channel)
+                    format!("ibc recv chan=channel-1 sport={REMOTE_PORT} schan=channel-2 denom={REMOTE_PORT}/channel-1/uatom amt=1 rcv={rcv} snd=remote0 tv=1 fail=0"),
+                    // the payout fails: the receiver does not validate
+                    recv0("uatom", 1, &format!("-{INVALID_ADDR}"), 0),
+                    recv0(&c0, 1, &rcv, 0),
+                    format!("ibc ack {} ok=1 fail=0", flight("channel-0", "uatom", 1)),
+                    format!("ibc ack {} ok=0 fail=0", flight("channel-0", "uatom", 1)),
+                    format!("ibc timeout {} fail=0", flight("channel-0", "uatom", 1)),
+                    format!("ibc timeout {} fail=0", flight("channel-1", "uatom", 1)),
+                    // the refund fails (the bank refuses): the packet is settled, the coin stays with the contract
+                    format!("ibc timeout {} fail=1", flight("channel-0", "uatom", 1)),
+                    env,
+                    "query channel id=channel-0".to_string(),
+                ],
+            }),
+            1 => Some(SmallScope {
+                prefix: vec![format!("inst gov=+{p1} timeout=100 gas=- allow=+{t0}|-"), connect("channel-0"), connect("channel-1")],
+                alphabet: vec![
+                    send(&t0),
+                    // not on the allow list (until the governance lists it / a default gas limit is set)
+                    send(&t1),
+                    recv0(&c0, 1, &rcv, 0),
+                    // token1 refuses the payout
+                    recv0(&c1, 1, &rcv, 1),
+                    format!("ibc recv chan=channel-0 sport={REMOTE_PORT} schan=channel-1 raw=1 rcv={rcv} tv=1 fail=0"),
+                    // wrong port
+                    format!("ibc recv chan=channel-0 sport={REMOTE_PORT} schan=channel-1 denom=otherport/channel-1/{c0} amt=1 rcv={rcv} snd=remote0 tv=1 fail=0"),
+                    format!("ibc ack {} ok=0 fail=0", flight("channel-0", &c0, 1)),
+                    format!("ibc timeout {} fail=0", flight("channel-0", &c1, 1)),
+                    // token1 refuses the refund
+                    format!("ibc ack {} ok=0 fail=1", flight("channel-0", &c1, 1)),
+                    allow(&p1, &t1, "200000"),
+                    allow(&p1, &t1, "300000"),
+                    allow(&p1, &t1, "100000"),
+                    // listed without limit: a limit would be a lowering
+                    allow(&p1, &t0, "200000"),
+                    allow(&p2, &t1, "-"),
+                    format!("exec {p1} update_admin admin=+{p2}"),
+                    "migrate gas=600000".to_string(),
+                    "query list_channels".to_string(),
+                ],
+            }),
+            _ => Some(SmallScope {
+                prefix: vec![format!(
+                    "inst_legacy name=crates.io:cw20-ics20 ver=0.11.1 fmt=v1 timeout=100 gov=+{p1} gas=- allow= chans=channel-0 state=channel-0|uatom|1|2 hold=uatom|2"
+                )],
+                alphabet: vec![
+                    "migrate gas=-".to_string(),
+                    "migrate gas=500000".to_string(),
+                    connect("channel-1"),
+                    transfer(1, "channel-0"),
+                    send(&t0),
+                    recv0("uatom", 1, &rcv, 0),
+                    recv0("uatom", 2, &rcv, 0),
+                    recv0(&c0, 1, &rcv, 0),
+                    format!("ibc ack {} ok=1 fail=0", flight("channel-0", "uatom", 1)),
+                    format!("ibc ack {} ok=0 fail=0", flight("channel-0", "uatom", 1)),
+                    format!("ibc timeout {} fail=0", flight("channel-0", "uatom", 2)),
+                    allow(&p1, &t0, "-"),
+                    format!("exec {p1} update_admin admin=+{p2}"),
+                    "query config".to_string(),
+                    "query channel id=channel-0".to_string(),
+                ],
+            }),
+        }
+    }
+
     fn apply(&mut self, op: &str) -> Vec<String> {
         let a = Args::parse(op);
         let kind = a.pos.first().map(|s| s.as_str()).unwrap_or("");
